@@ -85,6 +85,27 @@ theorem sendLoop_writes_contiguous (fuel : Nat) (sends : List SendRes) (s : Stat
       (sendLoop fuel sends s id).1.reqs.length = s.reqs.length :=
   sendLoop_contiguous fuel sends s id hid hnc
 
+/-- **A request the send loop reports as sent has gone out whole**: with the fuel `sendHead`
+gives it (more than the octets still to send), the loop ends `done` only after the socket has
+accepted every remaining octet — the wire has received exactly the unsent rest of the request,
+in order, whatever the schedule of partial sends.  Together with `closeSocket_restarts_head`
+(a new connection starts the head request from octet 0) each request reported sent is on one
+connection from its first to its last octet. -/
+theorem sendLoop_done_sends_rest (fuel : Nat) (sends : List SendRes) (s : State) (id : Nat)
+    (hid : id < s.reqs.length) (hle : (s.getReq id).sent ≤ (s.getReq id).raw.length)
+    (hf : (s.getReq id).raw.length - (s.getReq id).sent < fuel)
+    (hd : (sendLoop fuel sends s id).2.2 = .done) :
+    (sendLoop fuel sends s id).1.conns.flatten = s.conns.flatten ++ (s.getReq id).raw.drop (s.getReq id).sent ∧
+    ((sendLoop fuel sends s id).1.getReq id).sent = (s.getReq id).raw.length := by
+  have hc := sendLoop_done_complete fuel sends s id hid hle hf hd
+  obtain ⟨k, h1, _, h3, _⟩ := sendLoop_contiguous fuel sends s id hid (by rw [hd]; decide)
+  refine ⟨?_, hc⟩
+  rw [h3]
+  congr 1
+  apply List.take_of_length_le
+  rw [List.length_drop]
+  omega
+
 /-! Non-vacuity: three PDUs, two chunkings. -/
 example : Tlv.memRead [1, 1, 0xaa, 2, 0] = .ok ⟨1, false, false, 2, 1⟩ ∧ ([1, 1, 0xaa, 2, 0] : Bytes).isEmpty = false :=
   ⟨rfl, rfl⟩
